@@ -27,4 +27,9 @@ def evLegal {α} [DecidableEq α] (drain : Bool) (body : List α) (closeEv : α)
        | some l => l == closeEv && obs.length ≥ 2 && isPrefix obs.dropLast body
        | none => false)
 
+/-- the transport ended by itself and the node was not being closed: the application received everything, then the close
+    event carrying the cause, and nothing after it (mode `eof`) -/
+def evLegalEnd {α} [DecidableEq α] (body : List α) (closeEv : α) (pre post : List α) : Bool :=
+  pre == body ++ [closeEv] && post.isEmpty
+
 end Mav.Spec
